@@ -21,6 +21,10 @@ SPEC = {
                     "an empty answer is an empty answer whatever resultType the server prints",
                     "answers larger than 4 MiB or later than 15 s are violations (the reference answers are a few KiB)",
                     "known-finding classes (see known_test.go, one replay each) are left out of the generated expressions and counted under excluded_by_construction",
+                    "an expression is left out (class 'comparison_decided_by_rounding (oracle)', counted under excluded_by_construction, not a finding) when one of its "
+                    "comparisons has, at some step, operands that the reference itself computes equal up to the granted 1e-9 without being identical (or identical, "
+                    "non-zero and coming from rate/increase/delta/irate/idelta/avg/sum/stddev/stdvar computations): one unit in the last place then decides "
+                    "what the comparison keeps",
                     "discrepancies that disappear on retry / on a freshly started server are counted (classes transient_discrepancy_not_reproduced_on_retry, "
                     "discrepancy_not_reproduced_on_fresh_server) and logged, not failed: they are not re-executable"],
     "campaigns": [
